@@ -64,9 +64,10 @@ claimed = {
  "C09": dict(text="Symbolic method, requested method and requested header list against configured or computed allowed methods and symbolic allowed headers: the solver proves that a preflight "
              "never reaches a later filter or route, is granted exactly when method and every requested header are allowed, and that actual requests proceed with each header once; an optional "
              "earlier preflight to the other URL must not change the answer.", design="5 (C09)"),
+ "C16": dict(text="go-restful's part of the property, with the standard library codecs trusted: the entity is written by the real Response code and read back by the real Request.ReadEntity / entityReaderWriters.accessorAt / entityJSONAccess / entityXMLAccess code under every combination of entity kind, body coding, compressor provider, writing call, Content-Type spelling (verbatim, with a symbolic parameter suffix, absent or unregistered with a default request content type) and a history of up to two earlier requests (five kinds of broken body, a well-formed one) that share the pooled decompressors; value and suffix are symbolic. encoding/json, encoding/xml, compress/gzip and compress/zlib are typestate stubs: a serialised value is an opaque token that only the decoder of the same kind turns back into an equal value, a compressed stream a token that only the decompressor of the same coding - reset onto it - opens; json numbers decoded into an untyped field without UseNumber lose precision beyond 2^53. The solver proves: no error and an equal value (64-bit integer exactly, also in the untyped field) for well-formed requests, an error and never a panic for broken ones, a clean decompressor ledger, and no influence of earlier requests. Counterexamples are replayed natively with the real codecs. The equality of the codecs themselves over their whole value domain (unicode strings, floats, nested values) cannot be encoded within reach and is NOT claimed.",
+             design="5 (C16)", note="Partial claim: the codecs (encoding/json, encoding/xml, compress/gzip, compress/zlib) are trusted typestate stubs symbolically and the real packages natively; the value domain is one struct type per codec with an int64, a string of <= 3 bytes in a-z and (JSON) an untyped integer field; at most two earlier requests. The statement's quantifier over every value of the codecs' common domain and over unicode strings is outside the claim."),
 }
 not_applicable = {
- "C16": "the statement is about the composition of encoding/json, encoding/xml, compress/gzip and compress/zlib (reflection-driven marshalling, data-dependent inflate/deflate loops): none of that can be executed by an SSA->SMT encoder within reach, and with those packages stubbed nothing of the stated equality is left to decide; go-restful's own part (accessor lookup, decompressor acquire/Reset/release, no panic on a failing Reset or zlib header) is covered under C05 and C13",
 }
 for p in props:
     if p['id'] not in claimed and p['id'] not in not_applicable:
